@@ -165,41 +165,27 @@ func (h *Heap[T]) Convert(comp gogu.CompFn[T]) {
 func FromSlice[T comparable](data []T, comp gogu.CompFn[T]) *Heap[T] {
 	mu := &sync.RWMutex{}
 	for i := len(data)/2 - 1; i >= 0; i-- {
-		// The outer loop continues from the index where the element came to rest.
-		var inl1_v0 int
-		{
-			var data []T = data
-			_ = data
-			var i int = i
-			_ = i
-			var comp gogu.CompFn[T] = comp
-			_ = comp
-			var mu *sync.RWMutex = mu
-			_ = mu
-			for {
-				l, r := 2*i+1, 2*i+2
-				if l >= len(data) || l < 0 {
-					break
-				}
-
-				current := l
-				if r < len(data) && comp(data[r], data[l]) {
-					current = r
-				}
-
-				if !comp(data[current], data[i]) {
-					break
-				}
-
-				mu.Lock()
-				swap(data, i, current)
-				mu.Unlock()
-
-				i = current
+		for {
+			l, r := 2*i+1, 2*i+2
+			if l >= len(data) || l < 0 {
+				break
 			}
-			inl1_v0 = i
+
+			current := l
+			if r < len(data) && comp(data[r], data[l]) {
+				current = r
+			}
+
+			if !comp(data[current], data[i]) {
+				break
+			}
+
+			mu.Lock()
+			swap(data, i, current)
+			mu.Unlock()
+
+			i = current
 		}
-		i = inl1_v0
 	}
 
 	return &Heap[T]{
